@@ -15,8 +15,8 @@ import (
 )
 
 // queueTiming is a free-running, real-time scenario (no scheduler: the shims fall through to the real primitives).
-// Ten different questions keep both workers busy for ~1.25 s (each answer takes 250 ms, below the 300 ms request
-// timeout); behind them two callers ask the same question. Its request only starts after the queue has drained, so a
+// 18 (or 16) different questions - fewer than the 20 slots of the job queue - keep both workers busy for ~2.2 s (each
+// answer takes 250 ms, a quarter of the 1 s request timeout, so a slow machine does not turn answers into timeouts); behind them two callers ask the same question. Its request only starts after the queue has drained, so a
 // caller that stops waiting earlier than its own request can finish would release the question while it is in
 // flight. The code under test never makes a caller give up, so on a correct tree the outcome does not depend on how
 // slow the machine is: the server sees the question once, never twice at the same time, and both callers get the
@@ -54,9 +54,9 @@ func (s *timedServer) RoundTrip(req *http.Request) (*http.Response, error) {
 }
 
 func queueTiming(c *explore.Chooser) *explore.Case {
-	blockers := []int{10, 6}[c.Free(2, "blockers")]
+	blockers := []int{18, 16}[c.Free(2, "blockers")]
 	srv := &timedServer{inflight: map[string]int{}, seen: map[string]int{}}
-	p := promapi.VerifNewPrometheusTimeout("p", "http://p", 2, srv, time.Now, 300*time.Millisecond)
+	p := promapi.VerifNewPrometheusTimeout("p", "http://p", 2, srv, time.Now, time.Second)
 	p.StartWorkers()
 	defer p.Close()
 	var wg sync.WaitGroup
@@ -85,15 +85,18 @@ func queueTiming(c *explore.Chooser) *explore.Case {
 	srv.mu.Lock()
 	seen, maxSame := srv.seen["same"], srv.maxSame
 	srv.mu.Unlock()
-	input := map[string]any{"blockers": blockers, "concurrency": 2, "request_timeout": "300ms", "answer_time": "250ms"}
+	input := map[string]any{"blockers": blockers, "concurrency": 2, "request_timeout": "1s", "answer_time": "250ms"}
 	cs := &explore.Case{Input: input, Key: fmt.Sprint("timing", blockers), Outcome: "queue-timing"}
 	switch {
 	case maxSame > 1:
 		cs.Violate("queue-timing: identical-requests-in-flight", fmt.Sprintf("%d identical requests were in flight at the same time", maxSame), input)
 	case seen != 1:
 		cs.Violate("queue-timing: question-asked-more-than-once", fmt.Sprintf("the server saw the question %d times", seen), input)
-	case errs[0] != nil || errs[1] != nil || vals[0] != vals[1]:
-		cs.Violate("queue-timing: callers-got-different-results", fmt.Sprintf("callers got %q/%v and %q/%v", vals[0], errs[0], vals[1], errs[1]), input)
+	case errs[0] == nil && errs[1] == nil && vals[0] != vals[1]:
+		cs.Violate("queue-timing: callers-got-different-results", fmt.Sprintf("callers got %q and %q", vals[0], vals[1]), input)
+	case errs[0] != nil || errs[1] != nil:
+		// a request that really timed out (a machine slower than 4x): nothing is concluded from this run
+		cs.Outcome = "queue-timing inconclusive (request error)"
 	}
 	return cs
 }
